@@ -746,6 +746,17 @@ impl PartitionedFileGroup {
         );
         let mut commands = Vec::new();
         let retained_file = Arc::new(self.to_keep.swap_remove(0));
+        // The retained path can be a symbolic link (reported with `--symbolic-links`).
+        // A hard link made from it would be a copy of the link itself, which dangles if it is
+        // relative and the replaced file lives in another directory, so hard links must refer
+        // to the file the retained path resolves to.
+        let hard_link_target = match fs::canonicalize(retained_file.path.to_path_buf()) {
+            Ok(resolved) if *strategy == DedupeOp::HardLink => Arc::new(PathAndMetadata {
+                path: Path::from(resolved),
+                metadata: retained_file.metadata.clone(),
+            }),
+            _ => retained_file.clone(),
+        };
         for dropped_file in self.to_drop {
             match strategy {
                 DedupeOp::SymbolicLink => commands.push(FsCommand::SoftLink {
@@ -753,7 +764,7 @@ impl PartitionedFileGroup {
                     link: dropped_file,
                 }),
                 DedupeOp::HardLink => commands.push(FsCommand::HardLink {
-                    target: retained_file.clone(),
+                    target: hard_link_target.clone(),
                     link: dropped_file,
                 }),
                 DedupeOp::RefLink => commands.push(FsCommand::RefLink {
